@@ -117,3 +117,97 @@ def run_mixes(ctx, rp, jobs, max_paths=None, par=None):
     if errs:
         raise errs[0]
     ctx.extra["mixes"] = ["+".join(m) for m in jobs]
+
+
+# ------------------------------------------------------------------------------------------------------------
+# several rounds per party, run-queue hand-over semantics, release on a helper thread (MutexRounds.tla)
+# ------------------------------------------------------------------------------------------------------------
+def tla_set(xs):
+    return "{" + ", ".join('"%s"' % x for x in xs) + "}"
+
+
+def rounds_defs(cfg):
+    """cfg: {"P": {party: kind}, "rounds": {party: n}, "foreign": [...], "await": [...]}"""
+    pk = cfg["P"]
+    d = {KCONST[k]: tla_set(sorted(p for p, kk in pk.items() if kk == k)) for k in KCONST}
+    d["PFor"] = tla_set(cfg.get("foreign", []))
+    d["PAwait"] = tla_set(cfg.get("await", []))
+    d["Rounds"] = "[p \\in %s |-> CASE %s]" % (tla_set(sorted(pk)), " [] ".join('p = "%s" -> %d' % (p, cfg["rounds"].get(p, 1)) for p in sorted(pk)))
+    return d
+
+
+def proj_rounds(st, cfg):
+    pk = cfg["P"]
+    return {
+        "req": st["req"],
+        "chain": chain_of(st),
+        "queue": queue_of(st),
+        "acts": st["acts"],
+        "done": st["done"],
+        "tryres": st["tryres"],
+        "incs": sorted(st["incs"]),
+        "pend": {t: pend(pc) for t, pc in st["pc"].items()},
+        "slot": st["slot"] if st["slot"] != [] else {},
+        "frames": sum(1 for p, k in pk.items() if k == "co"),
+        "allocs": 0,
+    }
+
+
+def header_rounds(cfg, k):
+    rel = {}
+    for i, (p, kind) in enumerate(sorted(cfg["P"].items())):
+        rel[p] = "await" if p in cfg.get("await", []) else ("discard", "dtor")[(k + i) % 2]
+    return {"P": cfg["P"], "rel": rel, "rounds": {p: cfg["rounds"].get(p, 1) for p in cfg["P"]}, "foreign": sorted(cfg.get("foreign", []))}
+
+
+def run_rounds(ctx, rp, cfg, tag, max_paths=None, workers=4):
+    must = ["TryCAS", "CsMark", "LCsEnd", "SubCAS", "LSubOk"]
+    if cfg.get("foreign"):
+        must += ["HRelMark", "LHRel"]
+    res, g = graph_replay(ctx, "Mutex", "MutexRounds", "MutexRounds_base.cfg", tag, rp, lambda st: proj_rounds(st, cfg),
+                          header_fn=lambda k, st0: header_rounds(cfg, k), defs=rounds_defs(cfg), must_take=must,
+                          variants=[{"reuse": False}, {"reuse": True}],
+                          max_paths=max_paths, tlc_kw={"workers": workers})
+    return res
+
+
+def C(kinds, rounds, foreign=(), aw=()):
+    pk = {"p%d" % (i + 1): k for i, k in enumerate(kinds)}
+    return {"P": pk, "rounds": {"p%d" % (i + 1): r for i, r in enumerate(rounds)}, "foreign": ["p%d" % i for i in foreign], "await": ["p%d" % i for i in aw]}
+
+
+ROUNDS_QUICK = [
+    C(["co", "co"], [2, 2]),
+    C(["co", "co"], [2, 2], aw=[1]),
+    C(["co", "bl"], [2, 2], foreign=[1]),
+    C(["bl", "co"], [2, 1], foreign=[1], aw=[2]),
+    C(["co", "try"], [2, 2], aw=[1]),
+    C(["co", "co", "bl"], [2, 1, 1], aw=[2]),
+]
+ROUNDS_MORE = [
+    C(["co", "co"], [3, 2], aw=[1, 2]),
+    C(["bl", "bl"], [2, 2], foreign=[2]),
+    C(["co", "co", "co"], [2, 2, 1], aw=[1]),
+    C(["co", "co", "bl"], [2, 2, 1], foreign=[1]),
+    C(["co", "bl", "try"], [2, 2, 2], aw=[1]),
+    C(["co", "co", "co"], [2, 1, 1], foreign=[1, 2]),
+]
+
+
+def run_rounds_all(ctx, rp, cfgs, max_paths=None, par=3):
+    from concurrent.futures import ThreadPoolExecutor
+    errs = []
+
+    def one(k):
+        if len(ctx.violations) >= 3:
+            return
+        try:
+            run_rounds(ctx, rp, cfgs[k], "r%d" % k, max_paths=max_paths)
+        except Exception as e:
+            errs.append(e)
+    with ThreadPoolExecutor(max_workers=par) as ex:
+        list(ex.map(one, range(len(cfgs))))
+    if errs:
+        raise errs[0]
+    ctx.extra["round_mixes"] = ["%s rounds=%s foreign=%s await=%s" % ("+".join(c["P"][p] for p in sorted(c["P"])), [c["rounds"][p] for p in sorted(c["P"])],
+                                                                     c["foreign"], c["await"]) for c in cfgs]
